@@ -136,7 +136,8 @@ Definition hostA (f : st) : bool :=
 Definition cframe (f : st) : bool :=
   match f with
   | NoAnnot g => hostA g
-  | FoundObjectKeyBeginAfterNewLine | InlineAnnotationTextPrefix | MultiLineAnnotationTextPrefix => true
+  | FoundObjectKeyBeginAfterNewLine | InlineAnnotationTextPrefix | MultiLineAnnotationTextPrefix
+  | EndTopAfterNewLine => true
   | _ => hostA f
   end.
 
@@ -183,7 +184,7 @@ Definition top_is (v : list ev) (e : ev) : bool :=
 (* what the stack looks like when the step function is [f] *)
 Fixpoint shape (f : st) (v : list ev) : bool :=
   match f with
-  | FoundRootValue | SEndTop => is_nil v
+  | FoundRootValue | SEndTop | EndTopAfterNewLine => is_nil v
   | FoundObjectKeyBeginOrEmpty | FoundObjectKeyBegin | FoundObjectKeyBeginAfterNewLine
   | FoundObjectValueBegin | AfterObjectKey | AfterObjectValue => top_is v ObjectBegin
   | FoundArrayItemBeginOrEmpty | FoundArrayItemBegin | AfterArrayItem => top_is v ArrayBegin
@@ -571,9 +572,9 @@ Proof.
   intros HG Hcl Hst. host_start s HG Hst; unfold st_after_array_item; unf; rewrite ?Hc47; exec; fin.
 Qed.
 
-Lemma end_top_ok c s :
+Lemma end_top_ok c la s :
   Good s -> closing_only (s_finds s) = true -> stepis SEndTop c s ->
-  okres (st_end_top c s).
+  okres (st_end_top c la s).
 Proof.
   intros HG Hcl Hst. host_start s HG Hst; unfold st_end_top; unf; rewrite ?Hc47; exec; fin.
 Qed.
@@ -678,12 +679,12 @@ Proof.
   - (* KeyShortcutBegin *) wf_next Hwf. unf. apply after_object_key_ok; [leaf|cbn; side|left; reflexivity].
 Qed.
 
-Lemma end_value_ok c k s :
+Lemma end_value_ok c la k s :
   Kspec c k -> s_finds s = [] ->
   wf (types (s_stk s)) = true -> ctx_ok (types (s_stk s)) (s_cx s) (s_pcs s) ->
   aframes (types (s_stk s)) (s_rts s) = true ->
   s_back s = false -> s_skip s = false ->
-  okres (st_end_value c k s).
+  okres (st_end_value c la k s).
 Proof.
   intros HK. dsc s. cbn. intros Hf Hwf Hcx Hrt Hbk Hsk. subst.
   assert (Hv : tpfs (types stk) (rev []) = Some (types stk)) by reflexivity.
@@ -791,6 +792,7 @@ Proof.
      unfold st_types_shortcut_schema_name, st_types_shortcut_before_pipe, finish_shortcut; unf; exec;
      first [ fin2
            | solve [exfalso; ctx_solve]
+           | solve [unf; apply HK; [reflexivity|left; reflexivity|leaf|cbn; side]]
            | eapply end_value_ok; [exact HK|cbn; rewrite ?Hty; side ..] ]).
 Qed.
 
@@ -941,6 +943,15 @@ Proof.
   lazy beta iota delta [dispatch]. unfst. unf. exec; fin2.
 Qed.
 
+Lemma end_top_after_new_line_ok c la k s :
+  Good s -> s_finds s = [] -> s_step s = EndTopAfterNewLine ->
+  okres (dispatch c la k (s_step s) s).
+Proof.
+  intros HG Hf Hst. dsc s. cbn in Hst, Hf. subst finds step.
+  good_start HG. assert (Hcl : closing_only [] = true) by reflexivity.
+  lazy beta iota delta [dispatch]. unfold st_end_top_after_new_line, st_end_top. unf. exec; fin2.
+Qed.
+
 (* ---- every state function ---- *)
 Lemma dispatch_ok c la k s :
   Kspec c k -> Good s -> s_finds s = [] -> okresB la (s_step s) (dispatch c la k (s_step s) s).
@@ -957,6 +968,7 @@ Proof.
               | apply ann_ok; [assumption|assumption|rewrite E; exact I]
               | apply escu123_ok; assumption
               | apply after_new_line_ok; assumption
+              | apply end_top_after_new_line_ok; assumption
               | eapply noannot_ok; eassumption ]
       | rewrite <- E; apply comment_ok; [assumption|assumption|rewrite E; exact I]
       | apply okres_B; lazy beta iota delta [dispatch];
@@ -1294,7 +1306,7 @@ Ltac unfall :=
     key_begin_tail, begin_key_shortcut, st_begin_key_or_empty,
     st_begin_annotation_object_key_or_empty, st_begin_annotation_object_key,
     st_in_annotation_object_key_first_letter, st_begin_string, st_begin_value,
-    st_after_object_key, st_after_object_value, st_after_array_item, st_end_top,
+    st_after_object_key, st_after_object_value, st_after_array_item, st_end_top_after_new_line, st_end_top,
     st_found_object_end, st_found_array_end,
     st_in_string, st_in_string_esc, hex_then, st_in_string_esc_u123, st_neg, st_dot, expect,
     expect_last, st_types_shortcut_begin_of_schema_name, st_types_shortcut_after_pipe,
@@ -1331,7 +1343,7 @@ Proof.
     unfall; unf; repeat execP1; stk_leaf Hk.
 Qed.
 
-Lemma end_value_stk c k s : Kstk k -> stk_res (s_stk s) (st_end_value c k s).
+Lemma end_value_stk c la k s : Kstk k -> stk_res (s_stk s) (st_end_value c la k s).
 Proof.
   intros Hk. unfold st_end_value.
   destruct (s_stk s) as [|[t0 b0] rest] eqn:Es.
@@ -1354,7 +1366,7 @@ Proof.
       st_in_annotation_object_key_after, st_types_shortcut_schema_name, st_types_shortcut_before_pipe;
     (dsc s; unfall; unf; repeat execP1;
      rewrite ?root_brace by assumption;
-     first [ stk_leaf Hk | exact (end_value_stk _ _ _ Hk) ]).
+     first [ stk_leaf Hk | exact (end_value_stk _ _ _ _ Hk) ]).
 Qed.
 
 Lemma call_stk c la : forall n, Kstk (call n c la).
@@ -1786,9 +1798,9 @@ Ltac sim_leaf :=
         | eexists; eexists; eexists; split; [junfold; use_tests; cbn; reflexivity|];
           split; [cbn; reflexivity|rel_solve] ].
 
-Lemma end_value_sim c k s q0 u jstk :
+Lemma end_value_sim c la k s q0 u jstk :
   Rel s q0 u jstk -> s_finds s = [] -> plainc c = true ->
-  simR (Scanner.end_value false (map fst jstk) u c) jstk (st_end_value c k s).
+  simR (Scanner.end_value false (map fst jstk) u c) jstk (st_end_value c la k s).
 Proof.
   intros HR Hf Hp. destruct (plainc_facts c Hp) as [H47 [H35 H64]].
   dsc s. destruct HR as [Hq [Hu [Hs [Ha [Hl [Hh [Hb [Hk Hr]]]]]]]]. cbn in *. subst.
@@ -1804,10 +1816,10 @@ Qed.
 #[local] Arguments st_end_value : simpl never.
 Ltac ev_leaf Hp :=
   lazymatch goal with
-  | |- simR _ ?j (st_end_value ?c ?k _) =>
+  | |- simR _ ?j (st_end_value ?c ?la ?k _) =>
     unfold Scanner.step, Scanner.state0; cbn [Scanner.c_st Scanner.c_unf];
     change Scanner.ch with ch; change Scanner.is_digit with is_digit; use_tests;
-    eapply (end_value_sim c k _ _ _ j); [rel_solve|reflexivity|exact Hp]
+    eapply (end_value_sim c la k _ _ _ j); [rel_solve|reflexivity|exact Hp]
   end.
 
 Lemma dispatch_sim c la k s q u jstk :
